@@ -29,6 +29,7 @@ func init() {
 			"wrappers family: every method probed on receivers whose ToString was customised (String/Number/Boolean objects and primitives with own or prototype toString/valueOf replaced, non-callable or returning objects; arrays with replaced join/toString; plain objects), fresh runtime per case, expected = [[DefaultValue]] 8.12.8 with the log of user functions called; " +
 			"history family: every operation sequence of depth <= 2 over {s[n]=v, three defineProperty shapes, delete s[n]} x n in {1, 3, 5, \"01\", \"-0\", \"4294967295\", length, expando} on a fresh new String(\"abc\"), then every observer (get, in, hasOwnProperty, propertyIsEnumerable, descriptor, keys, getOwnPropertyNames, for-in, charAt, String, valueOf, length) against ref/str16.StrObj (15.5.5.2 + 8.12); " +
 			"multi family: A = new String(s1) followed by every sequence of <= 2 actions over 9 kinds (second live String object, boxing a primitive for length/charAt/[i]/charCodeAt, dropped String object, Object(v)[1], for-in, reading A) x 7 non-ASCII/astral/ASCII strings, then every read form of every retained object in two orders and A once more (a String object depends on its own value only), one shared runtime per worker; " +
+			"boundary family: the unit-indexing families re-run on the boundary code points of every UTF-8/UTF-16 length class (7F,80,7FF,800,D7FF,E000,FFFF,10000,10001,FFFFF,100000,10FFFF) alone, doubled and flanked by ASCII; " +
 			"each (method, receiver route, representation, string, argument tuple) is one case; a case is non-trivial when the expected result is not the trivial one of its method " +
 			"(empty string / -1 / NaN / the unchanged receiver / TypeError).",
 		Families: []engine.Family{
@@ -49,6 +50,7 @@ func init() {
 			{Name: "wrappers", Run: runWrappers},
 			{Name: "history", Run: runHistory},
 			{Name: "multi", Run: runMulti},
+			{Name: "boundary", Run: runBoundary},
 			{Name: "len4", Run: runLen4, ThoroughOnly: true},
 		},
 		Assumptions: []string{
